@@ -32,7 +32,7 @@ typedef struct sStructElem {
 } TStructElem, *PStructElem;
 
 typedef struct sStructRec {
-    LongInt     TotLen;
+    LargeInt    TotLen;
     PStructElem Elems;
     char        ExtChar;
     Boolean     DoExt;
@@ -71,7 +71,7 @@ extern void AddStructSymbol(char const* pName, LargeWord Value);
 
 extern void ResolveStructReferences(PStructRec pStructRec);
 
-extern void BumpStructLength(PStructRec StructRec, LongInt Length);
+extern void BumpStructLength(PStructRec StructRec, LargeInt Length);
 
 extern void AddStruct(PStructRec StructRec, char* Name, Boolean Protest);
 
